@@ -386,4 +386,49 @@ def rootArgs {α : Type} (init : List α) (x0 : Option (List α)) (consts : List
    | some g => g,
    init ++ consts)
 
+/-! ### remaining branches of `equilibrium_quotient` / `equilibrium_residual` (round 7) -/
+
+section numeric2
+variable {α : Type} [NatCast α] [IntCast α] [Add α] [Sub α] [Mul α] [Div α] [Neg α]
+  [LT α] [DecidableLT α] [DecidableEq α]
+
+/-- `equilibrium_quotient(concs, stoich)` for 2-d `concs` (chemistry.py: `tot = np.ones(concs.shape[0]); concs = concs.T`): one quotient per
+    row (state) of `concs`.  (numpy float arrays give inf/nan instead of ZeroDivisionError: outside the model.) -/
+def eqQuotientRows (concs : List (List α)) (stoich : List Int) : Except Err (List α) :=
+  concs.mapM fun row => eqQuotient row stoich
+
+/-- `equilibrium_residual(rc, c0, stoich, K, activity_product)` with 1-d `stoich` and an activity-product callback `act`:
+    `Q = equilibrium_quotient(c, stoich); Q *= activity_product(c); return K - Q` -/
+def equilibriumResidualWith (act : List α → Except Err α) (rc : α) (c0 : List α) (stoich : List Int) (K : α) : Except Err α := do
+  if c0.length ≠ stoich.length then throw .valueError
+  else
+    let c := extentState c0 stoich rc
+    let q ← eqQuotient c stoich
+    let g ← act c
+    pure (K - q * g)
+
+/-- `np.dot(stoich, rc)[i]` for row `i` of a 2-d `stoich` (species × reactions) -/
+def dotRowInt (row : List Int) (rc : List α) : α :=
+  listSum (List.zipWith (fun (n : Int) r => ((n : Int) : α) * r) row rc)
+
+/-- `c = c0 + np.dot(stoich, rc)` (2-d `stoich`: one row per species, one column per reaction; `rc` one coordinate per reaction) -/
+def extentStateMulti (c0 : List α) (stoich : List (List Int)) (rc : List α) : List α :=
+  List.zipWith (fun c row => c + dotRowInt row rc) c0 stoich
+
+/-- column `r` of the 2-d stoichiometry: the exponents of reaction `r` -/
+def stoichColumn (stoich : List (List Int)) (r : Nat) : List Int := stoich.map fun row => row.getD r 0
+
+/-- `equilibrium_residual(rc, c0, stoich, K)` for 2-d `stoich` (chempy/_equilibrium.py:29-34): `equilibrium_quotient(c, stoich)` then
+    multiplies `conc ** row` (a vector over the reactions) species by species, i.e. `Q_r = ∏_i c_i ^ stoich[i][r]`; result `K - Q`
+    (one entry per reaction).  Shapes that numpy cannot align are ValueError. -/
+def equilibriumResidualMulti (rc c0 : List α) (stoich : List (List Int)) (K : List α) : Except Err (List α) :=
+  if c0.length ≠ stoich.length ∨ stoich.any (fun row => decide (row.length ≠ rc.length)) ∨ K.length ≠ rc.length then throw .valueError
+  else
+    let c := extentStateMulti c0 stoich rc
+    (List.zip (List.range rc.length) K).mapM fun (r, k) => do
+      let q ← eqQuotient c (stoichColumn stoich r)
+      pure (k - q)
+
+end numeric2
+
 end ChemModel.EqSolve
